@@ -21,6 +21,13 @@ pub struct CallCase {
     pub fixed_chunks: bool,
     /// the same call is made a second time on the same client / channel and server (C02 only)
     pub repeat: bool,
+    /// non-default configuration that must not change what the caller and the handler observe (C02
+    /// l1-direct only): 0 none; 1 the client compresses its requests (gzip) but accepts no
+    /// compressed responses, the server sends and accepts gzip; 2 the server has a decoding limit
+    /// (64) that every request respects and the 200-byte responses exceed; 3 the client has an
+    /// encoding limit (64) likewise, and the call is made through a clone of it; 4 the server has
+    /// an encoding limit (300) that each 200-byte response respects and two of them together exceed
+    pub cfg: u8,
 }
 
 pub fn status_menu(tier: Tier) -> Vec<StatusSpec> {
@@ -91,12 +98,12 @@ pub fn call_cases(tier: Tier) -> Vec<CallCase> {
                         if n % 3 == 0 || (msgs.is_empty() && script.end.is_none()) {
                             let mut s2 = script.clone();
                             s2.exact_hint = true;
-                            out.push(CallCase { shape, req_msgs: req_msgs.clone(), req_md: req_md.clone(), script: s2, free_cuts: false, enc: None, fixed_chunks: false, repeat: false });
+                            out.push(CallCase { shape, req_msgs: req_msgs.clone(), req_md: req_md.clone(), script: s2, free_cuts: false, enc: None, fixed_chunks: false, repeat: false, cfg: 0 });
                         }
                         if n % 4 == 1 {
-                            out.push(CallCase { shape, req_msgs: req_msgs.clone(), req_md: req_md.clone(), script: script.clone(), free_cuts: false, enc: None, fixed_chunks: false, repeat: true });
+                            out.push(CallCase { shape, req_msgs: req_msgs.clone(), req_md: req_md.clone(), script: script.clone(), free_cuts: false, enc: None, fixed_chunks: false, repeat: true, cfg: 0 });
                         }
-                        out.push(CallCase { shape, req_msgs: req_msgs.clone(), req_md, script, free_cuts: false, enc: None, fixed_chunks: false, repeat: false });
+                        out.push(CallCase { shape, req_msgs: req_msgs.clone(), req_md, script, free_cuts: false, enc: None, fixed_chunks: false, repeat: false, cfg: 0 });
                     }
                 }
             }
@@ -112,17 +119,28 @@ pub fn call_cases(tier: Tier) -> Vec<CallCase> {
                 for (req, resp) in [(zeros.clone(), noisy.clone()), (noisy.clone(), zeros.clone()), (vec![1u8, 2, 3], zeros.clone()), (vec![], vec![])] {
                     let req_msgs = if shape.streams_requests() { vec![req.clone(), vec![5]] } else { vec![req.clone()] };
                     let script = Script { initial_md: vec![], msgs: vec![resp.clone(), vec![6]], end: None, handler_err: false, bidi: BidiMode::ReadAll, disable_compression: false, exact_hint: false };
-                    out.push(CallCase { shape, req_msgs: req_msgs.clone(), req_md: vec![], script: script.clone(), free_cuts: false, enc: Some(enc), fixed_chunks: true, repeat: false });
+                    out.push(CallCase { shape, req_msgs: req_msgs.clone(), req_md: vec![], script: script.clone(), free_cuts: false, enc: Some(enc), fixed_chunks: true, repeat: false, cfg: 0 });
                     if req.len() <= 3 {
-                        out.push(CallCase { shape, req_msgs: req_msgs.clone(), req_md: vec![], script: script.clone(), free_cuts: false, enc: Some(enc), fixed_chunks: true, repeat: true });
+                        out.push(CallCase { shape, req_msgs: req_msgs.clone(), req_md: vec![], script: script.clone(), free_cuts: false, enc: Some(enc), fixed_chunks: true, repeat: true, cfg: 0 });
                     }
                     // the per-response opt-out (Response::disable_compression) on unary responses
                     if !shape.streams_responses() {
                         let mut s2 = script.clone();
                         s2.disable_compression = true;
-                        out.push(CallCase { shape, req_msgs: req_msgs.clone(), req_md: vec![], script: s2, free_cuts: false, enc: Some(enc), fixed_chunks: true, repeat: false });
+                        out.push(CallCase { shape, req_msgs: req_msgs.clone(), req_md: vec![], script: s2, free_cuts: false, enc: Some(enc), fixed_chunks: true, repeat: false, cfg: 0 });
                     }
                 }
+            }
+        }
+    }
+    // configurations that must be invisible to caller and handler
+    {
+        let big = vec![0x5au8; 200];
+        for shape in Shape::ALL {
+            for cfg in 1..=4u8 {
+                let req_msgs = if shape.streams_requests() { vec![vec![1, 2, 3], vec![4]] } else { vec![vec![1, 2, 3]] };
+                let script = Script { initial_md: vec![], msgs: vec![big.clone(), big.clone(), big.clone()], end: None, handler_err: false, bidi: BidiMode::ReadAll, disable_compression: false, exact_hint: false };
+                out.push(CallCase { shape, req_msgs, req_md: vec![], script, free_cuts: false, enc: None, fixed_chunks: true, repeat: cfg == 3, cfg });
             }
         }
     }
@@ -131,7 +149,7 @@ pub fn call_cases(tier: Tier) -> Vec<CallCase> {
         let req_msgs = if shape.streams_requests() { vec![vec![1], vec![]] } else { vec![vec![1]] };
         for end in [None, Some(statuses[4].clone())] {
             let script = Script { initial_md: mds[1].clone(), msgs: vec![vec![2]], end, handler_err: false, bidi: BidiMode::ReadAll, disable_compression: false, exact_hint: false };
-            out.push(CallCase { shape, req_msgs: req_msgs.clone(), req_md: mds[2].clone(), script, free_cuts: true, enc: None, fixed_chunks: false, repeat: false });
+            out.push(CallCase { shape, req_msgs: req_msgs.clone(), req_md: mds[2].clone(), script, free_cuts: true, enc: None, fixed_chunks: false, repeat: false, cfg: 0 });
         }
     }
     out
@@ -216,6 +234,12 @@ fn l1_body(c: &CallCase, ch: &Chooser) -> Outcome {
         let e = super::codec_common::tonic_enc(e);
         server = server.send_compressed(e).accept_compressed(e);
     }
+    match c.cfg {
+        1 => server = server.send_compressed(tonic::codec::CompressionEncoding::Gzip).accept_compressed(tonic::codec::CompressionEncoding::Gzip),
+        2 => server = server.max_decoding_message_size(64),
+        4 => server = server.max_encoding_message_size(300),
+        _ => {}
+    }
     let capture = Arc::new(Mutex::new(Capture::default()));
     let chunking = if c.fixed_chunks { Chunking::Fixed(vec![4096, 1, 7000]) } else { Chunking::Choose { free: c.free_cuts, pending: true, empty: !c.free_cuts } };
     let direct = Direct { svc: server, ch: ch.clone(), req_chunking: chunking.clone(), resp_chunking: chunking, capture: capture.clone() };
@@ -223,6 +247,11 @@ fn l1_body(c: &CallCase, ch: &Chooser) -> Outcome {
     if let Some(e) = c.enc {
         let e = super::codec_common::tonic_enc(e);
         client = client.send_compressed(e).accept_compressed(e);
+    }
+    match c.cfg {
+        1 => client = client.send_compressed(tonic::codec::CompressionEncoding::Gzip),
+        3 => client = client.max_encoding_message_size(64).clone(),
+        _ => {}
     }
     let view = match spin_block_on(client_call(&mut client, c.shape, c.req_msgs.clone(), &c.req_md, true, ch, |_| {}), 200_000) {
         Ok(v) => v,
@@ -365,7 +394,7 @@ fn l2_body(c: &L2Case, ch: &Chooser) -> Outcome {
 
 pub fn describe(c: &CallCase) -> String {
     if c.fixed_chunks {
-        return format!("{:?} enc={:?} opt_out={} req_lens={:?} resp_lens={:?} repeat={} (large messages, fixed chunks)", c.shape, c.enc.map(|e| e.name()), c.script.disable_compression, c.req_msgs.iter().map(|m| m.len()).collect::<Vec<_>>(), c.script.msgs.iter().map(|m| m.len()).collect::<Vec<_>>(), c.repeat);
+        return format!("{:?} enc={:?} opt_out={} req_lens={:?} resp_lens={:?} repeat={} cfg={} (large messages, fixed chunks)", c.shape, c.enc.map(|e| e.name()), c.script.disable_compression, c.req_msgs.iter().map(|m| m.len()).collect::<Vec<_>>(), c.script.msgs.iter().map(|m| m.len()).collect::<Vec<_>>(), c.repeat, c.cfg);
     }
     format!(
         "{:?} req={:?} req_md={:?} script{{md={:?} msgs={:?} end={:?} handler_err={} mode={:?} exact_size_hint={}}} free={} repeat={}",
@@ -377,7 +406,7 @@ pub fn property(tier: Tier) -> Property {
     let l1 = Section::new(
         "l1-direct",
         Config { max_bound: tier.q(1, 2), ..Default::default() },
-        "cases: call shape x request message sequence x caller metadata x handler script (initial metadata, 0..2 messages or echo/read-all/ignore-input modes, OK or Status(code in 1..16, message menu incl. '%'/non-ASCII/control chars, details menu, metadata menu), handler-level error), a quarter of them made twice in a row on the same client and server (the second call is judged like the first); generated client -> in-process adapter -> generated server, no runtime. Environment: both bodies re-delivered with every chunking with <= bound cuts/Pending/empty-DATA-frame deviations (every composition for the small free-cut cases), request and response message sources may answer Pending. Oracle: the script itself (messages in order, outcome, code/message/details equal, metadata contained per key in order; handler saw the caller's messages and metadata). Non-trivial = at least one deviation taken or an error status scripted.",
+        "cases: call shape x request message sequence x caller metadata x handler script (initial metadata, 0..2 messages or echo/read-all/ignore-input modes, OK or Status(code in 1..16, message menu incl. '%'/non-ASCII/control chars, details menu, metadata menu), handler-level error), a quarter of them made twice in a row on the same client and server (the second call is judged like the first), plus four non-default configurations that must stay invisible (a client that compresses its requests but accepts no compressed responses; a server decoding limit, a cloned client's encoding limit and a server encoding limit that every single message respects); generated client -> in-process adapter -> generated server, no runtime. Environment: both bodies re-delivered with every chunking with <= bound cuts/Pending/empty-DATA-frame deviations (every composition for the small free-cut cases), request and response message sources may answer Pending. Oracle: the script itself (messages in order, outcome, code/message/details equal, metadata contained per key in order; handler saw the caller's messages and metadata). Non-trivial = at least one deviation taken or an error status scripted.",
         call_cases(tier),
         describe,
         l1_body,
@@ -385,7 +414,7 @@ pub fn property(tier: Tier) -> Property {
     .mins(1000, 20, 100);
     let mut l2cases = vec![];
     for (i, call) in call_cases(tier).into_iter().enumerate() {
-        if call.free_cuts {
+        if call.free_cuts || call.cfg != 0 {
             continue;
         }
         let chops: Vec<usize> = if tier == Tier::Thorough { (0..6).collect() } else { vec![i % 6] };
